@@ -255,10 +255,21 @@ def prove(pid, tier, extra_targets=()):
     return obs, out
 
 
+DRIVER_TIME = [0.0]
+
+
 def run_driver(pid, lines, timeout=3000):
     """Pipe protocol lines through Drivers/<pid>.lean; returns the answer lines."""
     if not lines:
         return []
+    _t0 = time.time()
+    try:
+        return _run_driver(pid, lines, timeout)
+    finally:
+        DRIVER_TIME[0] += time.time() - _t0
+
+
+def _run_driver(pid, lines, timeout=3000):
     text = '\n'.join(lines) + '\n'
     exe = os.path.join(LEAN, '.lake', 'build', 'bin', 'drv_' + pid.lower())
     if os.path.exists(exe) and os.environ.get('VERIF_NO_EXE') != '1':
@@ -514,6 +525,7 @@ def _run(ctx, module, args):
         'violations': len(new) + (1 if (rc == 1 and not new) else 0),
     }
     ev['coverage'].update(ctx.extra)
+    ev['coverage']['driver_wall_s'] = round(DRIVER_TIME[0], 2)
     if ctx.notes:
         ev['coverage']['notes'] = ctx.notes[:40]
     os.makedirs(os.path.join(VERIF, 'evidence'), exist_ok=True)
